@@ -28,7 +28,7 @@ def edits_dropped_column(rng, prog):
         if pname == "dropped_table_column" and c["quals"] and rng.random() < 0.5:
             qual = rng.choice(c["quals"])
         ref = ["col", qual, name]
-        use = rng.choice(["filter", "derive", "sort", "select", "group_key", "aggregate", "case_branch", "in_bound", "join_cond", "group_body", "this_qualified", "sort_desc_expr"])
+        use = rng.choice(["filter", "derive", "sort", "select", "group_key", "aggregate", "case_branch", "in_bound", "join_cond", "group_body", "this_qualified", "sort_desc_expr", "window_fn", "group_aggregate_fn", "aggregate", "aggregate"])
         first = c["cols"][0][0]
         if use == "filter":
             t = {"t": "filter", "cond": ["bin", ">", ref, ["lit", 1]]}
@@ -53,8 +53,20 @@ def edits_dropped_column(rng, prog):
             t = {"t": "sort", "keys": [[True, ["bin", "+", ref, ["lit", 1]]]]}
         elif use == "group_key":
             t = {"t": "group", "keys": [ref], "pipe": [{"t": "aggregate", "items": [["zn", ["agg", "count", None]]]}]}
+        elif use == "window_fn":
+            wf = rng.choice(["lag", "lead", "rank", "rank_dense", "first", "last"])
+            use = "window_fn:" + wf
+            t = {"t": "derive", "items": [["zq", ["win", wf, ([1, ref] if wf in ("lag", "lead") else [ref])]]]}
+        elif use == "group_aggregate_fn":
+            fn = rng.choice(["sum", "min", "max", "average", "count", "count_distinct"])
+            use = "group_aggregate_fn:" + fn
+            t = {"t": "group", "keys": [["col", None, first]], "pipe": [{"t": "aggregate", "items": [["zs", ["agg", fn, ref]]]}]}
         else:
-            t = {"t": "aggregate", "items": [["zs", ["agg", "sum", ref]]]}
+            # every aggregation function takes the stale name as its direct argument (some discard their argument
+            # after resolution - `count` - so nothing downstream would notice)
+            fn = rng.choice(["sum", "min", "max", "average", "count", "count_distinct", "any", "all"])
+            use = "aggregate:" + fn
+            t = {"t": "aggregate", "items": [["zs", ["agg", fn, ref]]]}
         p = copy.deepcopy(prog)
         p["main"] = p["main"][:c["at"]] + [t]
         out.append((p, "dropped_column/%s%s/%s%s" % (pname, (":" + name) if pname == "std_colliding" else "", use, "/qualified" if qual else ""), name))
